@@ -748,6 +748,43 @@ def alias_defs(f):
     return out
 
 
+def deref_view(fn, members):
+    """a copy of fn in which every use of a reference local that names an element of one of the given member tables (`T &ch =
+    m_midiChannels[midCh];`, also through another such reference) is replaced by the expression it was bound to.  Rules that look for
+    `m_midiChannels[..].field` read this view: binding a table element to a reference once is the most common refactoring there is.
+    Only bindings whose own operands never change afterwards are replaced (parameters and locals that are never written again)."""
+    al = alias_defs(fn.d)
+    written = collections.Counter()
+    for b in fn.d['blocks']:
+        for st in b['stmts']:
+            for x in walk(st['s']):
+                ap = assign_parts_raw(x)
+                tgt = ap[0] if ap else (x['e'] if is_incdec(x) else None)
+                if tgt is not None and strip(tgt).get('k') == 'DeclRefExpr':
+                    written[strip(tgt)['id']] += 1
+    def is_ref(vid):
+        for b in fn.d['blocks']:
+            for st in b['stmts']:
+                if st['s'].get('k') == 'DeclStmt':
+                    for v in st['s']['decls']:
+                        if v['id'] == vid:
+                            return bool(v.get('ref') or (v.get('t') or {}).get('ref'))
+        return False
+    sel = {}
+    for vid, init in al.items():
+        if not is_ref(vid):
+            continue
+        full = subst(init, al)
+        if not any(isinstance(y, dict) and y.get('k') == 'MemberExpr' and short(y.get('n', '')) in members for y in walk(full)):
+            continue
+        if any(isinstance(y, dict) and y.get('k') == 'DeclRefExpr' and not y.get('fn') and written[y.get('id')] for y in walk(full)):
+            continue
+        sel[vid] = full
+    if not sel:
+        return fn
+    return Fn(subst(fn.d, sel), fn.unit)
+
+
 def is_local_helper(caller, cf):
     """cf is a small function of the repository that a maintainer could have extracted from `caller`: a file-static / inline function
     of the same file, or a member function of the same class; never an exported API function"""
